@@ -4,7 +4,7 @@ from world import amounts, specials
 ID = "C14"
 LEAN_MODULES = ["QtyModel.Props.C14", "QtyModel.Props.C14RoundTrip", "QtyModel.Props.Backends", "QtyModel.Props.TieConverter", "QtyModel.Props.OracleSoundC14"]
 HARNESS_GROUPS = ('g_tconv', 'temp')
-TCONV_TYPES = ["Temperature", "S:Sn", "S:Sc", "S:Sa", "Length"]
+TCONV_TYPES = ["Temperature", "S:Sn", "S:Sc", "S:Sa", "Length", "S:Sz"]
 RULE = ("random conversion tables (0..12 rows, duplicates, missing pairs) over types with and without reference unit x "
         "all unit pairs x amount classes; the predefined temperature table: its rows, and all 9 unit pairs x finite "
         "temperatures against the exact physical formulas; non-trivial = different units")
@@ -35,6 +35,15 @@ def gen(w, rng, tier):
                     f, to = rows[rng.below(len(rows))][:2]     # duplicate pair
                 rows.append((f, to, rng.choice(ams)[1], rng.choice(ams)[1]))
             enc = ";".join(f"{f}:{to}:{fa}:{off}" for f, to, fa, off in rows) or "-"
+            if n > 256 and rows:
+                # more units than an 8-bit discriminant tells apart: a row for (k, x) is no row for (k+256, x), and
+                # converting unit k to unit k+256 is a conversion, not the same-unit identity
+                f, to = rows[0][0] % (n - 256), rows[0][1]
+                rows[0] = (f, to) + rows[0][2:]
+                enc = ";".join(f"{f_}:{t_}:{fa}:{off}" for f_, t_, fa, off in rows)
+                lab, a = rng.choice(ams)
+                ops.append(("tab:diff:wide", f"tconv {tname} {enc} {f + 256} {a} {to}"))
+                ops.append(("tab:diff:wide", f"tconv {tname} {enc} {f} {a} {f + 256}"))
             for _ in range(4):
                 i, j = rng.below(n), rng.below(n)
                 if rows and rng.chance(1, 2):
